@@ -1149,8 +1149,11 @@ class CompositeEnvelope:
                     outcomes[k] = o
             elif s.index is None:
                 if not s.measured:
+                    # The envelope partners are already in the state_list, each
+                    # state measures only itself (otherwise the partners would
+                    # keep delegating the measurement to each other)
                     out = s.measure(
-                        separate_measurement=separate_measurement,
+                        separate_measurement=True,
                         destructive=destructive,
                     )
                     for k, o in out.items():
